@@ -21,6 +21,10 @@ var specSymRe = regexp.MustCompile(`\|spec [^|]+\|`)
 type globalAxiom struct{ name, text string }
 
 type Gen struct {
+	// noAssume: obligations recorded as known findings (known_findings.json, status "finding"). They are checked like
+	// any other, but NOT assumed afterwards: a recorded violation must not become a false premise that makes
+	// everything downstream of it on the path vacuously true (and hides a different violation).
+	noAssume  map[string]bool
 	sentinels map[*ssa.Global]int
 	prog      *ssa.Program
 	pkgs      []*packages.Package
